@@ -221,6 +221,168 @@ Section Flat.
   Proof. intro H. apply flat_eq_same_elems. now apply teq_flat_eq. Qed.
 End Flat.
 
+(* ---------------------------------------------------------------- pointwise operators and Transpose *)
+Section Transp.
+  Context {A : Type}.
+  Notation T := (tensor A).
+
+  Lemma in_range_all1 s idx : all1 s = true -> in_range s idx -> idx = repeat 0 (length s).
+  Proof.
+    intros H1 Hr. revert H1. induction Hr as [|i d idx s Hlt Hr IH]; intro H1; [reflexivity|].
+    unfold all1 in *. cbn [forallb] in H1. apply andb_prop in H1 as [Hd H1]. apply Nat.eqb_eq in Hd. subst d.
+    simpl. f_equal; [lia | now apply IH].
+  Qed.
+  Lemma zeros_in_range s : all1 s = true -> in_range s (repeat 0 (length s)).
+  Proof.
+    induction s as [|d s IH]; intro H1; [constructor|]. unfold all1 in *. cbn [forallb] in H1. apply andb_prop in H1 as [Hd H1].
+    apply Nat.eqb_eq in Hd. subst d. simpl. constructor; [lia | now apply IH].
+  Qed.
+
+  Lemma all1_nth s : all1 s = true <-> (forall k, k < length s -> nth k s 0 = 1).
+  Proof.
+    unfold all1. rewrite forallb_forall. split.
+    - intros H k Hk. symmetry. apply Nat.eqb_eq. apply H. now apply nth_In.
+    - intros H x Hx. apply In_nth with (d := 0) in Hx as (k & Hk & <-). apply Nat.eqb_eq. symmetry. now apply H.
+  Qed.
+
+  Lemma all1_gather p s : is_perm p -> length p = length s -> all1 (gather 0 p s) = all1 s.
+  Proof.
+    intros Hp Hl. destruct (all1 s) eqn:E.
+    - apply all1_nth. intros k Hk. rewrite gather_length in Hk. rewrite nth_gather by exact Hk.
+      apply (proj1 (all1_nth s) E). rewrite <- Hl. destruct Hp as [_ Hlt]. rewrite Forall_forall in Hlt. apply Hlt. now apply nth_In.
+    - destruct (all1 (gather 0 p s)) eqn:E'; auto. rewrite <- E. symmetry. apply all1_nth. intros k Hk.
+      assert (Hin : In k p) by (apply perm_In; auto; lia).
+      pose proof (proj1 (all1_nth _) E' (index_of k p)) as H. rewrite gather_length in H.
+      specialize (H (index_of_lt _ _ Hin)). rewrite nth_gather in H by (now apply index_of_lt). now rewrite nth_index_of in H.
+  Qed.
+
+  Lemma gather_zeros q n : Forall (fun k => k < n) q -> gather 0 q (repeat 0 n) = repeat 0 (length q).
+  Proof.
+    intro H. unfold gather. induction q as [|k q IH]; simpl; auto. inversion H; subst. f_equal; auto.
+    clear. revert k. induction n as [|n IH]; intros [|k]; simpl; auto.
+  Qed.
+
+  Lemma inv_perm_lt p : is_perm p -> Forall (fun k => k < length p) (inv_perm p).
+  Proof.
+    intro Hp. apply Forall_forall. intros k Hk. apply In_nth with (d := 0) in Hk as (i & Hi & <-).
+    rewrite inv_perm_length in Hi. rewrite nth_inv_perm by exact Hi. apply index_of_lt. now apply perm_In.
+  Qed.
+
+  Lemma gather_inj p s s' : is_perm p -> length s = length p -> length s' = length p ->
+    gather 0 p s = gather 0 p s' -> s = s'.
+  Proof.
+    intros Hp H1 H2 E. rewrite <- (@gather_inv_l _ 0 p s Hp H1), <- (@gather_inv_l _ 0 p s' Hp H2). now rewrite E.
+  Qed.
+
+  Lemma nth_repeat1 n k : k < n -> nth k (repeat 1 n) 0 = 1.
+  Proof. revert k. induction n as [|n IH]; intros [|k] H; simpl; auto; try lia. apply IH. lia. Qed.
+
+  Definition tfull (p : list nat) (v w : T) : Prop := teq v (transpose p w) /\ length (shape w) = length p.
+  Definition tsc (v w : T) : Prop := all1 (shape v) = true /\ teq v w.
+  Definition trel (p : list nat) (v w : T) : Prop := tfull p v w \/ tsc v w.
+
+  Lemma trel_facts p v w : is_perm p -> trel p v w ->
+    all1 (shape v) = all1 (shape w) /\ length (shape v) = length (shape w) /\ (all1 (shape v) = true -> sval v = sval w).
+  Proof.
+    intros Hp [[Ht Hl]|[H1 Ht]].
+    - destruct Ht as [Hs Hv]. cbn [transpose shape] in Hs.
+      assert (Ha : all1 (shape v) = all1 (shape w)) by (rewrite Hs; apply all1_gather; auto).
+      assert (Hlen : length (shape v) = length (shape w)) by (rewrite Hs, gather_length; auto).
+      split; [exact Ha|]. split; [exact Hlen|]. intro H1. unfold sval. rewrite Hv by (now apply zeros_in_range).
+      cbn [transpose at_]. f_equal. rewrite Hlen, Hl. rewrite gather_zeros by (now apply inv_perm_lt). now rewrite inv_perm_length.
+    - destruct Ht as [Hs Hv]. rewrite <- Hs. repeat split; auto. intros _. unfold sval. rewrite <- Hs. apply Hv. now apply zeros_in_range.
+  Qed.
+
+  Lemma prank_Forall2 (vs vs' : list T) : Forall2 (fun v w => length (shape v) = length (shape w)) vs vs' -> prank vs = prank vs'.
+  Proof. induction 1 as [|v w l l' H _ IH]; simpl; congruence. Qed.
+
+  Theorem pwn_transpose F p (vs vs' : list T) : is_perm p ->
+    Forall2 (trel p) vs vs' -> Exists (fun v => length (shape v) = length p) vs ->
+    Forall (fun v => length (shape v) <= length p) vs -> operands_ok vs ->
+    operands_ok vs' /\ teq (pwn F vs) (transpose p (pwn F vs')) /\ length (shape (pwn F vs')) = length p.
+  Proof.
+    intros Hp H2 Hex Hle Hok.
+    assert (Hfacts : Forall2 (fun v w => trel p v w /\ all1 (shape v) = all1 (shape w) /\ length (shape v) = length (shape w) /\
+                                          (all1 (shape v) = true -> sval v = sval w)) vs vs').
+    { eapply Forall2_imp; [|exact H2]. intros v w H. split; auto. now apply (trel_facts p). }
+    assert (Hpr : prank vs = prank vs') by (apply prank_Forall2; eapply Forall2_imp; [|exact Hfacts]; intros v w (_ & _ & H & _); exact H).
+    assert (Hpn : prank vs = length p).
+    { apply Nat.le_antisymm; [now apply prank_le|]. apply Exists_exists in Hex as (v & Hv & <-). now apply prank_ge. }
+    (* the first operand that is not a one-element tensor, on both sides *)
+    assert (Hfind : match find (fun v => negb (all1 (shape v))) vs, find (fun v => negb (all1 (shape v))) vs' with
+                    | Some y, Some y' => trel p y y' | None, None => True | _, _ => False end).
+    { apply (find_Forall2 (trel p)). eapply Forall2_imp; [|exact Hfacts]. intros v w (H & Ha & _). split; auto. now rewrite Ha. }
+    unfold operands_ok in *. unfold pwn, full_shape in *.
+    destruct (find (fun v => negb (all1 (shape v))) vs) as [y|] eqn:Ey;
+      destruct (find (fun v => negb (all1 (shape v))) vs') as [y'|] eqn:Ey'; try contradiction.
+    - (* a full operand exists: it is transposed, of rank |p| *)
+      apply find_some in Ey as [Hyin Hyn]. apply negb_true_iff in Hyn.
+      destruct Hfind as [[Hty Hly]|[Hc _]]; [|congruence].
+      assert (Hsy : shape y = gather 0 p (shape y')) by exact (proj1 Hty).
+      assert (Hlen : length (shape y) = length p) by (rewrite Hsy; apply gather_length).
+      rewrite <- Hpr, Hpn, Hlen, Hly, Nat.sub_diag. cbn [repeat app].
+      assert (Hok' : Forall (fun v => all1 (shape v) = true \/ shape v = shape y') vs').
+      { rewrite Forall_forall in Hok. clear - Hfacts Hok Hp Hsy Hly.
+        induction Hfacts as [|v w l l' (Hr & Ha & Hl & _) _ IH]; constructor.
+        - destruct (all1 (shape w)) eqn:Ew; [now left|]. right.
+          destruct (Hok v (or_introl eq_refl)) as [H|H]; [congruence|].
+          destruct Hr as [[Ht Hlw]|[H1 _]]; [|congruence].
+          apply (gather_inj p); auto. rewrite <- Hsy, <- H. symmetry. exact (proj1 Ht).
+        - apply IH. intros x Hx. apply Hok. now right. }
+      split; [exact Hok'|]. split; [|exact Hly].
+      split; cbn [shape at_ transpose]; [exact Hsy|]. intros idx Hidx. f_equal. apply map_Forall2_eq.
+      rewrite Forall_forall in Hok.
+      assert (Hc : Forall2 (fun v w => (trel p v w /\ all1 (shape v) = all1 (shape w) /\ length (shape v) = length (shape w) /\
+                                       (all1 (shape v) = true -> sval v = sval w)) /\ In v vs) vs vs').
+      { clear - Hfacts. induction Hfacts as [|v w l l' H _ IH]; constructor; [split; auto; now left|].
+        eapply Forall2_imp; [|exact IH]. intros b c [Hb Hin]. split; auto. now right. }
+      eapply Forall2_imp; [|exact Hc]. cbv beta. intros v w ((Hr & Ha & Hl & Hs) & Hin).
+      unfold opnd. rewrite <- Ha. destruct (all1 (shape v)) eqn:Ev; [now apply Hs|].
+      destruct Hr as [[Ht _]|[H1 _]]; [|congruence]. cbn [skipn].
+      destruct (Hok v Hin) as [H|H]; [congruence|]. destruct Ht as [_ Hv]. rewrite Hv by (now rewrite H). reflexivity.
+    - (* only one-element operands *)
+      clear Hfind. rewrite <- Hpr, Hpn. cbn [length]. rewrite Nat.sub_0_r, app_nil_r.
+      assert (Hall : forall v, In v vs -> all1 (shape v) = true).
+      { intros v Hv. pose proof (find_none _ _ Ey v Hv) as H. now apply negb_false_iff in H. }
+      assert (Hall' : forall w, In w vs' -> all1 (shape w) = true).
+      { intros w Hw. pose proof (find_none _ _ Ey' w Hw) as H. now apply negb_false_iff in H. }
+      split; [apply Forall_forall; intros w Hw; left; now apply Hall'|].
+      split; [|cbn [shape]; now rewrite repeat_length].
+      split; cbn [shape at_ transpose].
+      + symmetry. apply nth_ext with (d := 0) (d' := 0); [now rewrite gather_length, repeat_length|].
+        intros k Hk. rewrite gather_length in Hk. rewrite nth_gather by exact Hk.
+        assert (Hlt : nth k p 0 < length p) by (destruct Hp as [_ H]; rewrite Forall_forall in H; apply H; now apply nth_In).
+        rewrite !nth_repeat1; auto.
+      + intros idx _. f_equal. apply map_Forall2_eq.
+        assert (Hc : Forall2 (fun v w => (trel p v w /\ all1 (shape v) = all1 (shape w) /\ length (shape v) = length (shape w) /\
+                                         (all1 (shape v) = true -> sval v = sval w)) /\ In v vs) vs vs').
+        { clear - Hfacts. induction Hfacts as [|v w l l' H _ IH]; constructor; [split; auto; now left|].
+          eapply Forall2_imp; [|exact IH]. intros b c [Hb Hin]. split; auto. now right. }
+        eapply Forall2_imp; [|exact Hc]. cbv beta. intros v w ((Hr & Ha & Hl & Hs) & Hin).
+        unfold opnd. rewrite <- Ha, (Hall v Hin). apply Hs. now apply Hall.
+  Qed.
+
+  (* a transposed tensor has the same elements *)
+  Lemma transpose_occurs p (w : T) a : is_perm p -> length p = length (shape w) -> occurs a (transpose p w) -> occurs a w.
+  Proof.
+    intros Hp Hl (idx & Hi & Ha). cbn [transpose shape at_] in *.
+    exists (gather 0 (inv_perm p) idx). split; auto.
+    assert (Hip : Forall (fun k => k < length (gather 0 p (shape w))) (inv_perm p)) by (rewrite gather_length; now apply inv_perm_lt).
+    pose proof (in_range_gather Hip Hi) as Hr. now rewrite gather_inv_l in Hr by auto.
+  Qed.
+  Lemma occurs_transpose p (w : T) a : is_perm p -> length p = length (shape w) -> occurs a w -> occurs a (transpose p w).
+  Proof.
+    intros Hp Hl (idx & Hi & Ha). exists (gather 0 p idx). cbn [transpose shape at_]. split.
+    - apply in_range_gather; auto. rewrite <- Hl. apply Hp.
+    - rewrite gather_inv_l; auto. apply in_range_length in Hi. congruence.
+  Qed.
+  Lemma trel_same_elems p v w : is_perm p -> trel p v w -> same_elems v w.
+  Proof.
+    intros Hp [[Ht Hl]|[_ Ht]]; [|now apply teq_same_elems].
+    intro a. rewrite (teq_same_elems _ _ Ht a). split; [apply transpose_occurs | apply occurs_transpose]; auto.
+  Qed.
+End Transp.
+
 (* non-vacuity: Max(x[2,3], c[1,1,1]) has shape [1,2,3] and the same flattening as Max(x'[6], c) *)
 Example pwn_rank_extends :
   shape (pwn (fun l => fold_right Nat.max 0 l) [mkT [1; 1; 1] (fun _ => 4); mkT [2; 3] (fun idx => flatten [2; 3] idx)]) = [1; 2; 3]
